@@ -198,6 +198,32 @@ theorem C07_partial_waits (side : Side) (maxLen : Int) (p : Bytes) (hp : Legal m
 /-- non-vacuity: the first three bytes of `frame [7]` (5 bytes) with `maxLen = 5` -/
 example : Legal 5 ([7] : Bytes) ∧ 3 < (frame ([7] : Bytes)).length := by unfold Legal; decide
 
+/-- **Reconnect starts from the empty buffer.** For every history of connections of one client
+(or one listener) — each cut wherever its reads end: inside a header, in the middle of a body,
+after a protocol error — every connection is handled exactly as a first connection: nothing that
+an earlier connection left buffered is carried over.  In particular a connection that carries,
+in any partition, the framed legal packets `ps` delivers exactly `ps.map frame` whatever the
+earlier connections left behind. -/
+theorem C07_reconnect_fresh_buffer (side : Side) (maxLen : Int) (prev : Conn)
+    (conns : List (List Bytes)) :
+    session side maxLen prev conns = conns.map (feedAll side maxLen Conn.init) ∧
+    ∀ (before after : List (List Bytes)) (cs : List Bytes) (ps : List Bytes),
+      conns = before ++ cs :: after → (∀ p ∈ ps, Legal maxLen p) →
+      cs.flatten = (ps.map frame).flatten →
+      (session side maxLen prev conns)[before.length]? = some (⟨[], .open⟩, ps.map frame) := by
+  have h := session_eq_map side maxLen conns prev
+  refine ⟨h, ?_⟩
+  intro before after cs ps hc hp hcs
+  rw [h, hc, List.map_append, List.map_cons]
+  rw [List.getElem?_append_right (by simp)]
+  simp only [List.length_map, Nat.sub_self, List.getElem?_cons_zero]
+  rw [C07_frames side maxLen ps hp cs hcs]
+
+/-- non-vacuity: connection 1 ends after 2 header bytes of a 9-byte packet, connection 2 carries
+`frame [7]` in two reads -/
+example : ([[[0, 0]], [[0, 0, 0], [5, 7]]] : List (List Bytes)) = [[[0, 0]]] ++ [[0, 0, 0], [5, 7]] :: []
+    ∧ ([[0, 0, 0], [5, 7]] : List Bytes).flatten = (([[7]] : List Bytes).map frame).flatten := by decide
+
 /-- **The receive loops never panic** on any input (no slice expression goes out of range). -/
 theorem C07_no_panic (side : Side) (maxLen : Int) (cs : List Bytes) :
     (feedAll side maxLen Conn.init cs).1.status ≠ .panicked :=
